@@ -24,12 +24,13 @@ type dataEnv struct {
 
 func newEnv(schema, impl string) *dataEnv {
 	m := model.SharedSchema(schema)
-	st := store.New(impl)
+	st := store.NewFor(impl, m)
 	return &dataEnv{m: m, st: st, b: node.NewBrowser(m, st.Root())}
 }
 
 func (e *dataEnv) canonOpts() model.CanonOpts {
-	return model.CanonOpts{IgnoreEntryOrder: e.st.MapLists()}
+	// Go structs cannot tell an empty list from no list
+	return model.CanonOpts{IgnoreEntryOrder: e.st.MapLists(), EmptyListAbsent: store.IsStructImpl(e.st.Name()), ZeroLeafAbsent: store.IsStructImpl(e.st.Name())}
 }
 
 func (e *dataEnv) snap() *model.Tree { return e.st.Snapshot(e.m) }
